@@ -195,8 +195,27 @@ class C03(Check):
                 if malformed and 'err' not in out:
                     bad('malformed-accepted', 'empty or non-integer point list accepted')
         elif case.kind == 'str':
-            if case.input['s'] == '' and 'err' not in out:
+            s = case.input['s']
+            if s == '' and 'err' not in out:
                 bad('empty-string-accepted', 'empty points string accepted')
+            # the PageXML points string: blank-separated "x,y" pairs.  A pair with a field that
+            # Python's int() does not accept is a non-integer point and must be rejected; when all
+            # pairs are integers they are exactly the points, in order (other tokens are outside the
+            # statement and ignored here, DESIGN §9)
+            pairs = [t.split(',') for t in s.split(' ') if len(t.split(',')) == 2]
+            if pairs:
+                try:
+                    exp = [[int(a), int(b)] for a, b in pairs]
+                except ValueError:
+                    exp = None
+                if exp is None:
+                    if 'err' not in out:
+                        bad('nonint-string-accepted', f'points string {s!r} has a pair with a non-integer field '
+                                                     f'but was accepted as {out["ok"]["points"]}')
+                elif 'ok' not in out:
+                    bad('valid-string-rejected', f'points string {s!r} rejected with {out}')
+                elif out['ok']['points'] != exp:
+                    bad('string-points', f'points string {s!r} parsed as {out["ok"]["points"]}, expected {exp}')
         return fs
 
     def nontrivial(self, case: Case) -> bool:
